@@ -120,7 +120,10 @@ def case_plan(rng, idx):
                 kw['as_kwarguments'] = rng.random() < 0.4
         if 'RawStack' in name and not name.startswith('SCCS'):
             flags['keyword_calls'] = False     # positional stack arguments on calls with keywords: slot 14
-            flags['driver_all_kinds'] = True   # raw stack does not import kinds into the driver: see C38
+        if 'RawStack' in name:
+            # raw stack does not import kinds into the driver (known finding, observed in C38's slot 'rawkind'): the
+            # driver imports every kind itself, also in the sequential slot 14
+            flags['driver_all_kinds'] = True
         specs.append({'name': name, 'family': family(name), 'steps': [(name, kw)],
                       'shim_contiguous': 'FtrPtr' in name or 'DirectIdx' in name})
     return flags, specs
